@@ -187,7 +187,7 @@ def _parse(out, res):
     m = re.search(r"depth of the complete state graph search is (\d+)", out)
     if m:
         res.depth = int(m.group(1))
-    m = re.search(r"Invariant (\S+) is violated", out)
+    m = re.search(r"Invariant (\S+) is violated", out) or re.search(r"The invariant of (\S+) is equal to FALSE", out)
     if m:
         res.violated = m.group(1)
     m = re.search(r"Action property (\S+) is violated", out) or \
